@@ -1,6 +1,6 @@
 """C17 registry entry (see lib/registry.py for the field reference)."""
 
-_FACETS = ["C17/burst", "C17/global", "C17/linearizable", "C17/concurrent-reset", "C17/rate-window"]
+_FACETS = ["C17/burst", "C17/global", "C17/linearizable", "C17/concurrent-reset", "C17/rate-window", "C17/mean-window"]
 
 PROP = {
     "id": "C17",
